@@ -53,7 +53,13 @@ def run_harness(exe, script_lines, workdir, name, *, timeout=300, env=None, args
     rc, out, err, to = run([exe, sp, tp] + list(args or []), timeout=timeout, env=e)
     with open(os.path.join(workdir, name + ".stderr"), "wb") as f:
         f.write(err[-200000:])
-    evs = read_trace(tp)
+    # a runaway harness is not read into memory (vh_core.h caps the number of events; this is the second line of defence)
+    if os.path.exists(tp) and os.path.getsize(tp) > 3 * 1024 ** 3:
+        evs = [{"e": "Died", "sig": 98}]
+        with open(tp, "r+b") as f:
+            f.truncate(64 * 1024 * 1024)
+    else:
+        evs = read_trace(tp)
     died = None
     if to:
         died = "watchdog: harness did not finish within %ss" % timeout
